@@ -14,15 +14,23 @@
     (S) `ranking_is_sort`        for ALL lists: the selection sort = the full sort cut to `max`. PROVED.
     (P) `ranking_perm_invariant` the result does not depend on the order of the input.        PROVED.
     (U) `updateTop_eq_fullSort`  for EVERY history of vote changes / registrations / un-registrations,
-          top(B) = (fullSort (registered B)).take max.                                         REFUTED:
-          `updateTop_tie_refuted`            third branch compares vote totals only
-          `rerank_unregistered_refuted`      re-rank-all reads un-registered entries of the index
-          `unregister_zero_votes_refuted`    `Ranking` returns early when the block has no VotesLog
-          proved instead: `updateTop_eq_fullSort_partial` (coded `updateTop`, exact guards) and the
-          full statement for the repaired `updateTopFixed` (`updateTopFixed_eq_fullSort`).
-    (R) `restart_same_top`       a restarted node publishes the same lists.                    REFUTED for
-          the blocks after the restart (`restart_diverges`: the index is empty after start-up);
-          the list of the stable block itself is right (`restart_top_eq_fullSort`).
+          top(B) = (fullSort (registered B)).take max.
+          - tie defect (third branch compared vote totals only): REPAIRED in /repo by fix 991f3e9; the
+            model's `tieFix = false` is the code before that fix, `updateTop_tie_refuted` is about it;
+          - still REFUTED for the current code once a candidate un-registers:
+            `rerank_unregistered_refuted`    re-rank-all reads un-registered entries of the index
+            `unregister_zero_votes_refuted`  `Ranking` returns early when the block has no VotesLog
+          proved for the CURRENT code: `updateTop_eq_fullSort_partial` (one exact guard: the index
+          enumerates exactly the registered candidates) and `live_history` (every history in which no
+          candidate un-registers); for the fully repaired `updateTopFixed`: every history
+          (`updateTopFixed_eq_fullSort`, `updateTopFixed_history`).
+    (R) `restart_same_top`       a restarted node publishes the same lists as one that did not restart.
+          The empty-index defect is REPAIRED in /repo by fix d292196 (`idxFix = false` is the code
+          before it, `restart_diverges` is about it).  Proved for the CURRENT code:
+          `restarted_eq_continuous` — if at the restart point the persisted list enumerates the index and
+          the re-ranked list equals the published one, EVERY later path of blocks (arbitrary changes)
+          gives the same lists on both nodes; `restart_same_as_continuous_noUnreg` discharges the two
+          conditions for every history without un-registration.
     (D) `deputies_loadable`      the deputies written at a snapshot block pass `NewTermRecord`.  REFUTED:
           `deputies_loadable_refuted` (votes are read from the snapshot block's own post-state);
           proved instead: `deputies_loadable_partial` (votes from the parent's view).
@@ -315,20 +323,34 @@ theorem branch3_correct {max : Nat} {R L : List Cand} {U : List Nat} (hR : AddrN
   have h3 : LE om x := outside_top hxR hxT om (mem_of_getLast? hom)
   exact LE_trans h1 (LE_trans hle h3)
 
-/-- (U) `_partial`, for `updateTop` AS CODED.  Exact guards:
-    * `hidx`  — the all-candidates index enumerates exactly the registered candidates of the new view
-                (false as soon as somebody has un-registered: the entry stays with 0 votes; false after
-                a restart: the index is empty), needed only by the two re-rank-all branches;
-    * `htie`  — when the new minimum has the same votes as the old minimum, its address is not larger
-                (the code compares the totals only).
-    Under them the published list is the full sort of the registered candidates cut to `max`. -/
-theorem updateTop_eq_fullSort_partial (max : Nat) (hmax : 1 ≤ max)
+/-- `updateTop` with the third-branch test abstracted (definitionally equal to both variants) -/
+def updateTopC (cond : Cand → Cand → Bool) (max : Nat) (oldTop index : List Cand) (unregs : List Nat)
+    (changed : List Cand) : GoRes (List Cand) :=
+  let newTop0 := filterUnreg oldTop unregs
+  let changed := filterUnreg changed unregs
+  let newTop := mergeCandidates max newTop0 changed
+  if oldTop.length < max then .ok newTop
+  else if oldTop.length > newTop.length then .ok (ranking max index)
+  else
+    match newTop.getLast?, oldTop.getLast? with
+    | some nm, some om =>
+      if cond nm om then .ok newTop
+      else .ok (ranking max index)
+    | _, _ => .panic
+
+theorem updateTop_eq_C (tieFix : Bool) (max : Nat) (oldTop index : List Cand) (unregs : List Nat)
+    (changed : List Cand) :
+    updateTop tieFix max oldTop index unregs changed =
+      updateTopC (fun nm om => if tieFix then rankLE nm om else decide (nm.votes ≥ om.votes))
+        max oldTop index unregs changed := rfl
+
+theorem updateTopC_eq_fullSort (cond : Cand → Cand → Bool) (max : Nat) (hmax : 1 ≤ max)
     (R : List Cand) (hR : AddrNodup R) (U : List Nat) (L : List Cand) (hL : AddrNodup L)
     (index : List Cand) (hidx : index ~ nextReg R U L)
-    (htie : ∀ nm om,
+    (hcond : ∀ nm om,
       (mergeCandidates max (filterUnreg (topOf max R) U) (filterUnreg L U)).getLast? = some nm →
-      (topOf max R).getLast? = some om → nm.votes = om.votes → nm.addr ≤ om.addr) :
-    updateTop max (topOf max R) index U L = .ok (topOf max (nextReg R U L)) := by
+      (topOf max R).getLast? = some om → cond nm om = true → LE nm om) :
+    updateTopC cond max (topOf max R) index U L = .ok (topOf max (nextReg R U L)) := by
   have hTs : (topOf max R).Pairwise LE := (fullSort_sorted R).sublist (take_sublist _ _)
   have hTlen : (topOf max R).length ≤ max := by simp [topOf, length_take]; omega
   have hT0s : (filterUnreg (topOf max R) U).Pairwise LE := hTs.sublist (filterUnreg_sublist _ _)
@@ -336,8 +358,8 @@ theorem updateTop_eq_fullSort_partial (max : Nat) (hmax : 1 ≤ max)
     Nat.le_trans (filterUnreg_sublist _ _).length_le hTlen
   have hall : ranking max index = topOf max (nextReg R U L) := by
     rw [ranking_perm_invariant max hidx, ranking_is_sort max hmax]
-  rw [mergeCandidates_eq max hmax hT0s hT0len] at htie
-  unfold updateTop
+  rw [mergeCandidates_eq max hmax hT0s hT0len] at hcond
+  unfold updateTopC
   simp only [mergeCandidates_eq max hmax hT0s hT0len, hall]
   split
   · rename_i hlt
@@ -348,13 +370,8 @@ theorem updateTop_eq_fullSort_partial (max : Nat) (hmax : 1 ≤ max)
       split
       · rename_i nm om hnm hom
         split
-        · rename_i hge
-          have hle : LE nm om := by
-            unfold Ranking.LE
-            by_cases he : nm.votes = om.votes
-            · exact Or.inr ⟨he, htie nm om hnm hom he⟩
-            · left; omega
-          rw [branch3_correct hR hL hnlt hngt hnm hom hle]
+        · rename_i hc
+          rw [branch3_correct hR hL hnlt hngt hnm hom (hcond nm om hnm hom hc)]
         · rfl
       · rename_i hnone
         exfalso
@@ -366,55 +383,88 @@ theorem updateTop_eq_fullSort_partial (max : Nat) (hmax : 1 ≤ max)
         obtain ⟨b, hb⟩ := Option.isSome_iff_exists.mp (by simpa using hTne : (topOf max R).getLast?.isSome)
         exact hnone a b ha hb
 
-/-- the guards of `updateTop_eq_fullSort_partial` are satisfiable with a full list, a tie and a
-    re-rank (max 2; A(9,30) B(5,20) C(7,20); B rises to 30) -/
-example : updateTop 2 (topOf 2 [⟨9, 30⟩, ⟨5, 20⟩, ⟨7, 20⟩]) [⟨9, 30⟩, ⟨5, 30⟩, ⟨7, 20⟩] [] [⟨5, 30⟩]
-    = .ok (topOf 2 (nextReg [⟨9, 30⟩, ⟨5, 20⟩, ⟨7, 20⟩] [] [⟨5, 30⟩])) := by decide
+/-- (U) `_partial`, for `updateTop` of the CURRENT code (order-aware third branch, fix 991f3e9).
+    Exact guard: `hidx` — the all-candidates index enumerates exactly the registered candidates of the
+    new view.  Under it the published list is the full sort of the registered candidates cut to `max`,
+    in all four branches, ties included. -/
+theorem updateTop_eq_fullSort_partial (max : Nat) (hmax : 1 ≤ max)
+    (R : List Cand) (hR : AddrNodup R) (U : List Nat) (L : List Cand) (hL : AddrNodup L)
+    (index : List Cand) (hidx : index ~ nextReg R U L) :
+    updateTop true max (topOf max R) index U L = .ok (topOf max (nextReg R U L)) := by
+  rw [updateTop_eq_C]
+  apply updateTopC_eq_fullSort _ max hmax R hR U L hL index hidx
+  intro nm om _ _ hc
+  exact (rankLE_iff nm om).mp (by simpa using hc)
 
-/-! ### (U) refuted on the faithful model -/
+/-- the same for the code before fix 991f3e9, which needs the additional tie guard -/
+theorem updateTop_legacy_partial (max : Nat) (hmax : 1 ≤ max)
+    (R : List Cand) (hR : AddrNodup R) (U : List Nat) (L : List Cand) (hL : AddrNodup L)
+    (index : List Cand) (hidx : index ~ nextReg R U L)
+    (htie : ∀ nm om,
+      (mergeCandidates max (filterUnreg (topOf max R) U) (filterUnreg L U)).getLast? = some nm →
+      (topOf max R).getLast? = some om → nm.votes = om.votes → nm.addr ≤ om.addr) :
+    updateTop false max (topOf max R) index U L = .ok (topOf max (nextReg R U L)) := by
+  rw [updateTop_eq_C]
+  apply updateTopC_eq_fullSort _ max hmax R hR U L hL index hidx
+  intro nm om hnm hom hc
+  have hge : nm.votes ≥ om.votes := by simpa using hc
+  unfold Ranking.LE
+  by_cases he : nm.votes = om.votes
+  · exact Or.inr ⟨he, htie nm om hnm hom he⟩
+  · left; omega
 
-/-- run a path of blocks (each a list of changed accounts) from a block -/
-def runPath (max : Nat) : Blk → List (List Change) → GoRes Blk
+/-- the guard of `updateTop_eq_fullSort_partial` is satisfiable with a full list and a tie at the
+    boundary (max 2; A(9,30) B(5,20) C(7,20); A drops to 20: the case the old code got wrong) -/
+example : updateTop true 2 (topOf 2 [⟨9, 30⟩, ⟨5, 20⟩, ⟨7, 20⟩]) [⟨9, 20⟩, ⟨5, 20⟩, ⟨7, 20⟩] [] [⟨9, 20⟩]
+    = .ok (topOf 2 (nextReg [⟨9, 30⟩, ⟨5, 20⟩, ⟨7, 20⟩] [] [⟨9, 20⟩])) := by decide
+
+/-! ### (U) refutations on the faithful model -/
+
+/-- run a path of blocks (each a list of changed accounts) from a block;
+    `tieFix = true` is the current code -/
+def runPath (tieFix : Bool) (max : Nat) : Blk → List (List Change) → GoRes Blk
   | b, [] => .ok b
   | b, chs :: rest =>
-    match applyBlock max 0 b chs [] with
-    | .ok b' => runPath max b' rest
+    match applyBlock tieFix max 0 b chs [] with
+    | .ok b' => runPath tieFix max b' rest
     | .err e => .err e
     | .panic => .panic
 
 /-- the published list of the last block of a path vs. the specification on its own account view -/
-def pathOK (max : Nat) (path : List (List Change)) : Bool :=
-  match runPath max {} path with
+def pathOK (tieFix : Bool) (max : Nat) (path : List (List Change)) : Bool :=
+  match runPath tieFix max {} path with
   | .ok b => decide (b.top = topOf max (registered b.accts))
   | _ => false
 
-/-- (U) REFUTED, defect 1 (tie): max 2; A(addr 9, 30 votes), B(5, 20), C(7, 20) register; then A drops
-    to 20 votes.  The merge gives `[B, A]`, the new minimum has the same TOTAL as the old one, the third
-    branch keeps it; the full sort is `[B, C]`. -/
+/-- (U) REFUTED for the code BEFORE fix 991f3e9 (`tieFix = false`), tie defect: max 2; A(addr 9, 30
+    votes), B(5, 20), C(7, 20) register; then A drops to 20 votes.  The merge gives `[B, A]`, the new
+    minimum has the same TOTAL as the old one, the third branch kept it; the full sort is `[B, C]`.
+    The current code (`tieFix = true`) publishes `[B, C]` (last conjunct). -/
 theorem updateTop_tie_refuted :
-    pathOK 2 [[⟨9, .yes, 30, true⟩, ⟨5, .yes, 20, true⟩, ⟨7, .yes, 20, true⟩], [⟨9, .yes, 20, true⟩]] = false ∧
-    (∃ b, runPath 2 {} [[⟨9, .yes, 30, true⟩, ⟨5, .yes, 20, true⟩, ⟨7, .yes, 20, true⟩], [⟨9, .yes, 20, true⟩]] = .ok b ∧
-      b.top = [⟨5, 20⟩, ⟨9, 20⟩] ∧ topOf 2 (registered b.accts) = [⟨5, 20⟩, ⟨7, 20⟩]) := by
-  refine ⟨by decide, ?_⟩
+    pathOK false 2 [[⟨9, .yes, 30, true⟩, ⟨5, .yes, 20, true⟩, ⟨7, .yes, 20, true⟩], [⟨9, .yes, 20, true⟩]] = false ∧
+    (∃ b, runPath false 2 {} [[⟨9, .yes, 30, true⟩, ⟨5, .yes, 20, true⟩, ⟨7, .yes, 20, true⟩], [⟨9, .yes, 20, true⟩]] = .ok b ∧
+      b.top = [⟨5, 20⟩, ⟨9, 20⟩] ∧ topOf 2 (registered b.accts) = [⟨5, 20⟩, ⟨7, 20⟩]) ∧
+    pathOK true 2 [[⟨9, .yes, 30, true⟩, ⟨5, .yes, 20, true⟩, ⟨7, .yes, 20, true⟩], [⟨9, .yes, 20, true⟩]] = true := by
+  refine ⟨by decide, ?_, by decide⟩
   exact ⟨_, rfl, by decide, by decide⟩
 
-/-- (U) REFUTED, defect 2 (re-rank-all reads un-registered index entries): max 2; 9(30), 5(20), 7(10);
-    9 and 5 un-register (votes 0, logged).  Published `[7:10, 5:0]`; only 7 is registered. -/
+/-- (U) REFUTED for the CURRENT code (re-rank-all reads un-registered index entries): max 2; 9(30),
+    5(20), 7(10); 9 and 5 un-register (votes 0, logged).  Published `[7:10, 5:0]`; only 7 is registered. -/
 theorem rerank_unregistered_refuted :
-    pathOK 2 [[⟨9, .yes, 30, true⟩, ⟨5, .yes, 20, true⟩, ⟨7, .yes, 10, true⟩],
+    pathOK true 2 [[⟨9, .yes, 30, true⟩, ⟨5, .yes, 20, true⟩, ⟨7, .yes, 10, true⟩],
               [⟨9, .no, 0, true⟩, ⟨5, .no, 0, true⟩]] = false ∧
-    (∃ b, runPath 2 {} [[⟨9, .yes, 30, true⟩, ⟨5, .yes, 20, true⟩, ⟨7, .yes, 10, true⟩],
+    (∃ b, runPath true 2 {} [[⟨9, .yes, 30, true⟩, ⟨5, .yes, 20, true⟩, ⟨7, .yes, 10, true⟩],
               [⟨9, .no, 0, true⟩, ⟨5, .no, 0, true⟩]] = .ok b ∧
       b.top = [⟨7, 10⟩, ⟨5, 0⟩] ∧ topOf 2 (registered b.accts) = [⟨7, 10⟩]) := by
   refine ⟨by decide, ?_⟩
   exact ⟨_, rfl, by decide, by decide⟩
 
-/-- (U) REFUTED, defect 3 (early return): a candidate with 0 votes (e.g. a genesis deputy nobody voted
-    for) un-registers: votes 0 → 0 is no VotesLog, `Ranking` returns before looking at the
+/-- (U) REFUTED for the CURRENT code (early return): a candidate with 0 votes (e.g. a genesis deputy
+    nobody voted for) un-registers: votes 0 → 0 is no VotesLog, `Ranking` returns before looking at the
     un-registrations, the candidate stays published. -/
 theorem unregister_zero_votes_refuted :
-    pathOK 2 [[⟨9, .yes, 0, true⟩, ⟨5, .yes, 0, true⟩], [⟨9, .no, 0, false⟩]] = false ∧
-    (∃ b, runPath 2 {} [[⟨9, .yes, 0, true⟩, ⟨5, .yes, 0, true⟩], [⟨9, .no, 0, false⟩]] = .ok b ∧
+    pathOK true 2 [[⟨9, .yes, 0, true⟩, ⟨5, .yes, 0, true⟩], [⟨9, .no, 0, false⟩]] = false ∧
+    (∃ b, runPath true 2 {} [[⟨9, .yes, 0, true⟩, ⟨5, .yes, 0, true⟩], [⟨9, .no, 0, false⟩]] = .ok b ∧
       b.top = [⟨5, 0⟩, ⟨9, 0⟩] ∧ topOf 2 (registered b.accts) = [⟨5, 0⟩]) := by
   refine ⟨by decide, ?_⟩
   exact ⟨_, rfl, by decide, by decide⟩
@@ -447,29 +497,23 @@ theorem restart_top_eq_fullSort (max : Nat) (hmax : 1 ≤ max) (persist : List C
   unfold restartTop
   rw [ranking_perm_invariant max hp, ranking_is_sort max hmax]
 
-/-- (R) REFUTED for the blocks after the restart: max 2; 9(30), 5(20), 7(20) made stable; restart;
-    then 9 drops to 10.  The restarted node re-ranks "all" candidates from an index that holds only
-    candidate 9 and publishes `[9:10]`; a node that did not restart publishes `[5:20, 7:20]`. -/
+/-- (R) REFUTED for the code BEFORE fix d292196 (`idxFix = false`): max 2; 9(30), 5(20), 7(20) made
+    stable; restart; then 9 drops to 10.  The restarted node re-ranked "all" candidates from an index
+    that held only candidate 9 and published `[9:10]`; a node that did not restart publishes
+    `[5:20, 7:20]`.  With the current start-up code (`idxFix = true`) both agree (last conjunct). -/
 theorem restart_diverges :
     let chs1 : List Change := [⟨9, .yes, 30, true⟩, ⟨5, .yes, 20, true⟩, ⟨7, .yes, 20, true⟩]
     let chs2 : List Change := [⟨9, .yes, 10, true⟩]
-    ∃ b1 live restarted,
-      applyBlock 2 0 {} chs1 [] = .ok b1 ∧
-      (restartBlk 2 (commitPersist [] chs1) b1).top = b1.top ∧
-      applyBlock 2 1 b1 chs2 [] = .ok live ∧
-      applyBlock 2 1 (restartBlk 2 (commitPersist [] chs1) b1) chs2 [] = .ok restarted ∧
-      live.top = [⟨5, 20⟩, ⟨7, 20⟩] ∧ restarted.top = [⟨9, 10⟩] := by
+    ∃ b1 live restarted restartedNow,
+      applyBlock true 2 0 {} chs1 [] = .ok b1 ∧
+      (restartBlk false 2 (commitPersist [] chs1) b1).top = b1.top ∧
+      applyBlock true 2 1 b1 chs2 [] = .ok live ∧
+      applyBlock true 2 1 (restartBlk false 2 (commitPersist [] chs1) b1) chs2 [] = .ok restarted ∧
+      live.top = [⟨5, 20⟩, ⟨7, 20⟩] ∧ restarted.top = [⟨9, 10⟩] ∧
+      applyBlock true 2 1 (restartBlk true 2 (commitPersist [] chs1) b1) chs2 [] = .ok restartedNow ∧
+      restartedNow.top = live.top := by
   intro chs1 chs2
-  exact ⟨_, _, _, rfl, by decide, rfl, rfl, by decide, by decide⟩
-
-/-- with the index rebuilt from the persisted list at start-up the same scenario agrees -/
-example :
-    (match applyBlock 2 0 {} [⟨9, .yes, 30, true⟩, ⟨5, .yes, 20, true⟩, ⟨7, .yes, 20, true⟩] [] with
-     | .ok b1 =>
-       (match applyBlockFixed 2 1 (restartBlkFixed 2 (commitPersist [] b1.changes) b1) [⟨9, .yes, 10, true⟩] [] with
-        | .ok b => decide (b.top = [⟨5, 20⟩, ⟨7, 20⟩])
-        | _ => false)
-     | _ => false) = true := by decide
+  exact ⟨_, _, _, _, rfl, by decide, rfl, rfl, by decide, by decide, rfl, by decide⟩
 
 /-! ## (U) for every history: the repaired update, from accounts to the published list -/
 
@@ -725,9 +769,289 @@ theorem filter_registered_perm {accts : List Acct} {idx : List Cand} (hA : AcctN
 theorem restart_same_top (max : Nat) (hmax : 1 ≤ max) (persist : List Cand) (stable : Blk)
     (hA : AcctNodup stable.accts) (hP : AddrNodup persist)
     (hcov : ∀ x ∈ registered stable.accts, x ∈ persist) :
-    (restartBlk max persist stable).top = topOf max (registered stable.accts) ∧
+    (∀ idxFix, (restartBlk idxFix max persist stable).top = topOf max (registered stable.accts)) ∧
     Inv max (restartBlkFixed max persist stable) := by
   have h := restart_top_eq_fullSort max hmax persist stable.accts (filter_registered_perm hA hP hcov)
-  exact ⟨h, ⟨hA, hP, hcov, h⟩⟩
+  exact ⟨fun _ => h, ⟨hA, hP, hcov, h⟩⟩
+
+/-! ## (R) for the current code: restarted = continuous -/
+
+/-- two blocks the store cannot tell apart: same published list, same account view, the same index up
+    to the order of enumeration -/
+structure BlkEquiv (a b : Blk) : Prop where
+  top : a.top = b.top
+  index : a.index ~ b.index
+  accts : a.accts = b.accts
+
+theorem putCand_perm {l l' : List Cand} (h : l ~ l') (c : Cand) : putCand l c ~ putCand l' c :=
+  (h.filter _).cons c
+
+theorem dyeGo_perm {idx idx' : List Cand} (h : idx ~ idx') (seen : List Nat) (logs : List Cand) :
+    dyeGo idx seen logs ~ dyeGo idx' seen logs := by
+  induction logs generalizing idx idx' seen with
+  | nil => simpa [dyeGo]
+  | cons l ls ih =>
+    simp only [dyeGo]
+    split
+    · exact ih h seen
+    · exact ih (putCand_perm h l) _
+
+theorem updateTop_index_perm (tieFix : Bool) (max : Nat) (T : List Cand) {idx idx' : List Cand}
+    (h : idx ~ idx') (U : List Nat) (L : List Cand) :
+    updateTop tieFix max T idx U L = updateTop tieFix max T idx' U L := by
+  unfold updateTop
+  rw [ranking_perm_invariant max h]
+
+/-- one block keeps two indistinguishable parents indistinguishable — for ARBITRARY changes and logs -/
+theorem applyBlock_equiv (tieFix : Bool) (max pid pid' : Nat) {a b : Blk} (h : BlkEquiv a b)
+    (chs : List Change) (extra : List Cand) :
+    (∀ a', applyBlock tieFix max pid a chs extra = .ok a' →
+      ∃ b', applyBlock tieFix max pid' b chs extra = .ok b' ∧ BlkEquiv a' b') ∧
+    (applyBlock tieFix max pid a chs extra = .panic → applyBlock tieFix max pid' b chs extra = .panic) := by
+  unfold applyBlock
+  simp only [← h.top, ← h.accts]
+  by_cases hl : (logsOf chs extra).isEmpty = true
+  · simp only [hl, if_true]
+    refine ⟨?_, fun hp => by cases hp⟩
+    intro a' ha
+    cases ha
+    exact ⟨_, rfl, ⟨rfl, h.index, rfl⟩⟩
+  · simp only [hl, Bool.false_eq_true, if_false]
+    have hd : dye a.index (logsOf chs extra) ~ dye b.index (logsOf chs extra) := dyeGo_perm h.index [] _
+    rw [← updateTop_index_perm tieFix max a.top hd]
+    cases hu : updateTop tieFix max a.top (dye a.index (logsOf chs extra)) (collectUnreg chs) (logsOf chs extra) with
+    | ok t =>
+      refine ⟨?_, fun hp => by cases hp⟩
+      intro a' ha
+      cases ha
+      exact ⟨_, rfl, ⟨rfl, hd, rfl⟩⟩
+    | err e => exact ⟨fun a' ha => (by simp at ha), fun hp => (by simp at hp)⟩
+    | panic => exact ⟨fun a' ha => (by simp at ha), fun _ => rfl⟩
+
+theorem runPath_equiv (tieFix : Bool) (max : Nat) (path : List (List Change)) {a b : Blk}
+    (h : BlkEquiv a b) :
+    ∀ e, runPath tieFix max a path = .ok e → ∃ e', runPath tieFix max b path = .ok e' ∧ BlkEquiv e e' := by
+  induction path generalizing a b with
+  | nil => intro e he; cases he; exact ⟨b, rfl, h⟩
+  | cons chs rest ih =>
+    intro e he
+    simp only [runPath] at he ⊢
+    cases ha : applyBlock tieFix max 0 a chs [] with
+    | ok a' =>
+      obtain ⟨b', hb', heq⟩ := (applyBlock_equiv tieFix max 0 0 h chs []).1 a' ha
+      rw [ha] at he
+      rw [hb']
+      exact ih heq e he
+    | err x => rw [ha] at he; cases he
+    | panic => rw [ha] at he; cases he
+
+/-- (R) FULL statement for the CURRENT start-up code (`restartBlk true`, fix d292196), exact guards:
+    if at the restart point the persisted candidate list enumerates the stable block's index
+    (`hidx`) and the re-ranked list equals the list the running node holds (`htop`), then for EVERY
+    later path of blocks — arbitrary changes, un-registrations included — the restarted node and the
+    node that did not restart publish the same lists (and stay indistinguishable). -/
+theorem restarted_eq_continuous (tieFix : Bool) (max : Nat) (persist : List Cand) (b : Blk)
+    (hidx : persist ~ b.index) (htop : restartTop max persist b.accts = b.top)
+    (path : List (List Change)) :
+    ∀ e, runPath tieFix max b path = .ok e →
+      ∃ e', runPath tieFix max (restartBlk true max persist b) path = .ok e' ∧ e'.top = e.top := by
+  intro e he
+  have h0 : BlkEquiv b (restartBlk true max persist b) := ⟨htop.symm, hidx.symm, rfl⟩
+  obtain ⟨e', he', heq⟩ := runPath_equiv tieFix max path h0 e he
+  exact ⟨e', he', heq.top.symm⟩
+
+/-! ## (U) for the current code: every history in which no candidate un-registers -/
+
+/-- no account of the block has isCandidate="false" -/
+def NoUnreg (chs : List Change) : Prop := ∀ c ∈ chs, c.flag ≠ Flag.no
+
+/-- invariant of the current code while nobody has un-registered: the index holds EXACTLY the
+    registered candidates -/
+structure InvLive (max : Nat) (b : Blk) : Prop where
+  accts : AcctNodup b.accts
+  index : AddrNodup b.index
+  exact : ∀ x, x ∈ b.index ↔ x ∈ registered b.accts
+  top : b.top = topOf max (registered b.accts)
+
+/-- the persisted candidate list enumerates the registered candidates of the view -/
+structure PersistOK (persist : List Cand) (accts : List Acct) : Prop where
+  nodup : AddrNodup persist
+  exact : ∀ x, x ∈ persist ↔ x ∈ registered accts
+
+theorem collectUnreg_nil {chs : List Change} (h : NoUnreg chs) : collectUnreg chs = [] := by
+  unfold collectUnreg
+  rw [map_eq_nil_iff, filter_eq_nil_iff]
+  intro c hc
+  simpa using h c hc
+
+theorem filterUnreg_nil (l : List Cand) : filterUnreg l [] = l := by simp [filterUnreg]
+
+/-- one block of the CURRENT code (`applyBlock true`, early return included) -/
+theorem applyBlock_inv_noUnreg (max : Nat) (hmax : 1 ≤ max) (pid : Nat) (p : Blk) (chs : List Change)
+    (hI : InvLive max p) (hC : Consistent p.accts chs) (hN : NoUnreg chs) :
+    ∃ b, applyBlock true max pid p chs [] = .ok b ∧ InvLive max b ∧ b.accts = acctsAfter p.accts chs := by
+  obtain ⟨hA', hLnd, hreg⟩ := registered_step hI.accts hC
+  have hRnd := addrNodup_registered hI.accts
+  have hR'nd := addrNodup_registered hA'
+  rw [collectUnreg_nil hN] at hreg
+  unfold acctsAfter
+  by_cases hl : (logsOf chs []).isEmpty = true
+  · -- no VotesLog: early return; the registered set did not change
+    have hL : logsOf chs [] = [] := by simpa using hl
+    have hsame : ∀ x, x ∈ registered (chs.foldl (fun l c => putAcct l ⟨c.addr, c.flag, c.votes⟩) p.accts) ↔
+        x ∈ registered p.accts := by
+      intro x
+      rw [hreg x, hL]
+      simp [nextReg, filterUnreg_nil]
+    refine ⟨{ parent := pid, top := p.top, index := p.index,
+              accts := chs.foldl (fun l c => putAcct l ⟨c.addr, c.flag, c.votes⟩) p.accts, changes := chs }, ?_, ?_, rfl⟩
+    · unfold applyBlock; simp only [hl, if_true]
+    · refine ⟨hA', hI.index, fun x => (hI.exact x).trans (hsame x).symm, ?_⟩
+      show p.top = _
+      rw [hI.top]
+      unfold topOf
+      rw [fullSort_congr ((perm_ext_iff_of_nodup hRnd.nodup hR'nd.nodup).mpr (fun x => (hsame x).symm))]
+  · have hdye : dye p.index (logsOf chs []) = (logsOf chs []).foldl putCand p.index := dye_eq_foldl hLnd _
+    have hidxnd : AddrNodup (dye p.index (logsOf chs [])) := hdye ▸ addrNodup_foldl_putCand _ hI.index
+    have hNnd : AddrNodup (nextReg (registered p.accts) [] (logsOf chs [])) :=
+      (merge_facts (max := max) (U := []) hRnd hLnd).2.1
+    have hmem : ∀ x, x ∈ dye p.index (logsOf chs []) ↔ x ∈ nextReg (registered p.accts) [] (logsOf chs []) := by
+      intro x
+      rw [hdye]
+      simp only [nextReg, filterUnreg_nil, mem_foldl_putCand hLnd, hI.exact x]
+    have hidx : dye p.index (logsOf chs []) ~ nextReg (registered p.accts) [] (logsOf chs []) :=
+      (perm_ext_iff_of_nodup hidxnd.nodup hNnd.nodup).mpr hmem
+    have hperm : registered (chs.foldl (fun l c => putAcct l ⟨c.addr, c.flag, c.votes⟩) p.accts) ~
+        nextReg (registered p.accts) [] (logsOf chs []) :=
+      (perm_ext_iff_of_nodup hR'nd.nodup hNnd.nodup).mpr hreg
+    have hup := updateTop_eq_fullSort_partial max hmax (registered p.accts) hRnd [] (logsOf chs []) hLnd
+      (dye p.index (logsOf chs [])) hidx
+    refine ⟨{ parent := pid, top := topOf max (nextReg (registered p.accts) [] (logsOf chs [])),
+              index := dye p.index (logsOf chs []),
+              accts := chs.foldl (fun l c => putAcct l ⟨c.addr, c.flag, c.votes⟩) p.accts, changes := chs }, ?_, ?_, rfl⟩
+    · unfold applyBlock
+      simp only [hl, Bool.false_eq_true, if_false, collectUnreg_nil hN, hI.top, hup]
+    · exact ⟨hA', hidxnd, fun x => (hmem x).trans (hreg x).symm, by simp only [topOf]; rw [fullSort_congr hperm]⟩
+
+/-- `blockCommit` keeps the persisted list equal to the registered set while nobody un-registers -/
+theorem commitPersist_ok {persist : List Cand} {accts : List Acct} {chs : List Change}
+    (hA : AcctNodup accts) (hP : PersistOK persist accts) (hC : Consistent accts chs) (hN : NoUnreg chs) :
+    PersistOK (commitPersist persist chs) (acctsAfter accts chs) := by
+  obtain ⟨_, hLnd, hreg⟩ := registered_step hA hC
+  rw [collectUnreg_nil hN] at hreg
+  have hRnd := addrNodup_registered hA
+  let Y : List Cand := (chs.filter (fun c => c.flag != Flag.none)).map (fun c => ⟨c.addr, c.votes⟩)
+  have hYeq : commitPersist persist chs = Y.foldl putCand persist := by
+    simp only [commitPersist, Y, foldl_map]
+  have hYnd : AddrNodup Y := by
+    unfold AddrNodup
+    simp only [Y, map_map]
+    exact Nodup.sublist (filter_sublist.map _) hC.nodup
+  have memY : ∀ x : Cand, x ∈ Y ↔ ∃ c ∈ chs, c.flag = Flag.yes ∧ c.addr = x.addr ∧ c.votes = x.votes := by
+    intro x; cases x
+    simp only [Y, mem_map, mem_filter, bne_iff_ne, ne_eq, Cand.mk.injEq]
+    constructor
+    · rintro ⟨c, ⟨hc, hf⟩, h1, h2⟩
+      refine ⟨c, hc, ?_, h1, h2⟩
+      cases hfl : c.flag with
+      | none => exact absurd hfl hf
+      | yes => rfl
+      | no => exact absurd hfl (hN c hc)
+    · rintro ⟨c, hc, hf, h1, h2⟩
+      exact ⟨c, ⟨hc, by rw [hf]; decide⟩, h1, h2⟩
+  have memL : ∀ x : Cand, x ∈ logsOf chs [] ↔ ∃ c ∈ chs, c.logged = true ∧ c.addr = x.addr ∧ c.votes = x.votes := by
+    intro x; cases x
+    simp only [logsOf, append_nil, mem_map, mem_filter, Cand.mk.injEq]
+    constructor
+    · rintro ⟨c, ⟨hc, hl⟩, h1, h2⟩; exact ⟨c, hc, hl, h1, h2⟩
+    · rintro ⟨c, hc, hl, h1, h2⟩; exact ⟨c, ⟨hc, hl⟩, h1, h2⟩
+  have flagYes : ∀ c ∈ chs, c.logged = true → c.flag = Flag.yes := by
+    intro c hc hl
+    cases hfl : c.flag with
+    | none => exact absurd hfl (hC.logged_cand c hc hl)
+    | yes => rfl
+    | no => exact absurd hfl (hN c hc)
+  refine ⟨hYeq ▸ addrNodup_foldl_putCand _ hP.nodup, ?_⟩
+  intro x
+  unfold acctsAfter
+  rw [hreg x, hYeq, mem_foldl_putCand hYnd]
+  simp only [nextReg, filterUnreg_nil, mem_foldl_putCand hLnd, hP.exact x]
+  constructor
+  · rintro (hxY | ⟨hxR, hnoY⟩)
+    · obtain ⟨c, hc, hf, ha, hv⟩ := (memY x).mp hxY
+      cases hlog : c.logged with
+      | true => exact Or.inl ((memL x).mpr ⟨c, hc, hlog, ha, hv⟩)
+      | false =>
+        right
+        have hx : x = ⟨c.addr, c.votes⟩ := by cases x; simp_all
+        refine ⟨hx ▸ hC.yes_unlogged c hc hf hlog, ?_⟩
+        intro l hl e
+        obtain ⟨c', hc', hl', ha', _⟩ := (memL l).mp hl
+        have := ch_eq_of_addr hC.nodup hc' hc (ha'.trans (e.trans ha.symm))
+        subst this; rw [hlog] at hl'; cases hl'
+    · refine Or.inr ⟨hxR, ?_⟩
+      intro l hl e
+      obtain ⟨c, hc, hlg, ha, hv⟩ := (memL l).mp hl
+      exact hnoY ⟨c.addr, c.votes⟩ ((memY _).mpr ⟨c, hc, flagYes c hc hlg, rfl, rfl⟩) (ha.trans e)
+  · rintro (hxL | ⟨hxR, hnoL⟩)
+    · obtain ⟨c, hc, hlg, ha, hv⟩ := (memL x).mp hxL
+      exact Or.inl ((memY x).mpr ⟨c, hc, flagYes c hc hlg, ha, hv⟩)
+    · by_cases hex : ∃ y ∈ Y, y.addr = x.addr
+      · obtain ⟨y, hy, hya⟩ := hex
+        obtain ⟨c, hc, hf, ha, hv⟩ := (memY y).mp hy
+        cases hlog : c.logged with
+        | true =>
+          exact absurd (ha.trans hya) (hnoL ⟨c.addr, c.votes⟩ ((memL _).mpr ⟨c, hc, hlog, rfl, rfl⟩))
+        | false =>
+          have hin := hC.yes_unlogged c hc hf hlog
+          have hxe := hRnd.eq_of_addr hin hxR (ha.trans hya)
+          exact Or.inl (hxe ▸ (memY _).mpr ⟨c, hc, hf, rfl, rfl⟩)
+      · exact Or.inr ⟨hxR, fun y hy e => hex ⟨y, hy, e⟩⟩
+
+/-- (U) FULL statement for the CURRENT code, exact guard "no candidate un-registers": on EVERY path of
+    consistent blocks without un-registration, starting from a block that satisfies the invariant (e.g.
+    the empty genesis), no step fails, the published list of the last block is the full sort of the
+    candidates registered in its own view cut to `max`, and — every block being committed — the
+    persisted candidate list enumerates the registered candidates. -/
+theorem live_history (max : Nat) (hmax : 1 ≤ max) (path : List (List Change)) (b : Blk)
+    (persist : List Cand) (hI : InvLive max b) (hPs : PersistOK persist b.accts)
+    (hP : ConsistentPath b.accts path) (hN : ∀ chs ∈ path, NoUnreg chs) :
+    ∃ e, runPath true max b path = .ok e ∧ InvLive max e ∧ e.top = topOf max (registered e.accts) ∧
+      PersistOK (path.foldl commitPersist persist) e.accts := by
+  induction path generalizing b persist with
+  | nil => exact ⟨b, rfl, hI, hI.top, hPs⟩
+  | cons chs rest ih =>
+    obtain ⟨hC, hrest⟩ := hP
+    have hNc : NoUnreg chs := hN chs mem_cons_self
+    obtain ⟨b', hb', hI', hacc⟩ := applyBlock_inv_noUnreg max hmax 0 b chs hI hC hNc
+    have hPs' : PersistOK (commitPersist persist chs) b'.accts :=
+      hacc ▸ commitPersist_ok hI.accts hPs hC hNc
+    obtain ⟨e, he, hIe, htop, hpe⟩ := ih b' (commitPersist persist chs) hI' hPs' (hacc ▸ hrest)
+      (fun c hc => hN c (mem_cons_of_mem _ hc))
+    exact ⟨e, by simp only [runPath, hb', he], hIe, htop, by simpa [foldl_cons] using hpe⟩
+
+theorem invLive_genesis (max : Nat) : InvLive max {} :=
+  ⟨by simp [AcctNodup], by simp [AddrNodup], by simp [registered], by simp [topOf, registered, fullSort]⟩
+
+/-- (R) for every history without un-registration: restart after ANY such committed history, then
+    continue with ANY blocks whatsoever — the restarted node publishes what the running node does. -/
+theorem restart_same_as_continuous_noUnreg (max : Nat) (hmax : 1 ≤ max)
+    (history : List (List Change)) (hP : ConsistentPath [] history) (hN : ∀ chs ∈ history, NoUnreg chs) :
+    ∃ s, runPath true max {} history = .ok s ∧
+      ∀ (later : List (List Change)) (e : Blk), runPath true max s later = .ok e →
+        ∃ e', runPath true max (restartBlk true max (history.foldl commitPersist []) s) later = .ok e' ∧
+          e'.top = e.top := by
+  obtain ⟨s, hs, hIs, _, hps⟩ := live_history max hmax history {} [] (invLive_genesis max)
+    ⟨by simp [AddrNodup], by simp [registered]⟩ hP hN
+  refine ⟨s, hs, ?_⟩
+  have hidx : history.foldl commitPersist [] ~ s.index :=
+    (perm_ext_iff_of_nodup hps.nodup.nodup hIs.index.nodup).mpr
+      (fun x => (hps.exact x).trans (hIs.exact x).symm)
+  have htop : restartTop max (history.foldl commitPersist []) s.accts = s.top := by
+    rw [hIs.top]
+    apply restart_top_eq_fullSort max hmax
+    apply filter_registered_perm hIs.accts hps.nodup
+    intro x hx; exact (hps.exact x).mpr hx
+  exact restarted_eq_continuous true max _ s hidx htop
 
 end LemoProofs.C10
